@@ -19,6 +19,14 @@ import (
 // to delete/copy/sort. Method calls with pointer receivers on globals and
 // writes through aliases are not seen (said so in the evidence).
 func c14GlobalWrites(repo string) (nvars int, writes []string, err error) {
+	n, w, _, e := c14GlobalScan(repo)
+	return n, w, e
+}
+
+// c14GlobalScan additionally lists package-level variables that are
+// synchronisation objects (types of sync / sync/atomic): shared mutable state by
+// construction, invisible to fingerprints.
+func c14GlobalScan(repo string) (nvars int, writes []string, syncVars []string, err error) {
 	var dirs []string
 	filepath.Walk(repo, func(p string, info os.FileInfo, e error) error {
 		if e != nil || !info.IsDir() {
@@ -38,7 +46,7 @@ func c14GlobalWrites(repo string) (nvars int, writes []string, err error) {
 		fset := token.NewFileSet()
 		pkgs, perr := parser.ParseDir(fset, dir, func(fi os.FileInfo) bool { return !strings.HasSuffix(fi.Name(), "_test.go") }, 0)
 		if perr != nil {
-			return 0, nil, perr
+			return 0, nil, nil, perr
 		}
 		for _, pkg := range pkgs {
 			globals := map[string]bool{}
@@ -46,10 +54,33 @@ func c14GlobalWrites(repo string) (nvars int, writes []string, err error) {
 				for _, d := range f.Decls {
 					if gd, ok := d.(*ast.GenDecl); ok && gd.Tok == token.VAR {
 						for _, sp := range gd.Specs {
-							for _, n := range sp.(*ast.ValueSpec).Names {
+							vs := sp.(*ast.ValueSpec)
+							usesSync := false
+							probe := func(e ast.Expr) {
+								if e == nil {
+									return
+								}
+								ast.Inspect(e, func(x ast.Node) bool {
+									if se, ok := x.(*ast.SelectorExpr); ok {
+										if id, ok := se.X.(*ast.Ident); ok && (id.Name == "sync" || id.Name == "atomic") {
+											usesSync = true
+										}
+									}
+									return true
+								})
+							}
+							probe(vs.Type)
+							for _, v := range vs.Values {
+								probe(v)
+							}
+							for _, n := range vs.Names {
 								if n.Name != "_" {
 									globals[n.Name] = true
 									nvars++
+									if usesSync {
+										rel, _ := filepath.Rel(repo, fset.Position(n.Pos()).Filename)
+										syncVars = append(syncVars, fmt.Sprintf("%s:%d %s", rel, fset.Position(n.Pos()).Line, n.Name))
+									}
 								}
 							}
 						}
@@ -154,7 +185,8 @@ func c14GlobalWrites(repo string) (nvars int, writes []string, err error) {
 		}
 	}
 	sort.Strings(writes)
-	return nvars, writes, nil
+	sort.Strings(syncVars)
+	return nvars, writes, syncVars, nil
 }
 
 func init() {
